@@ -397,4 +397,17 @@ def decode (data : Bytes) (localAddr : Option Addr) (remote : Addr) (now : Int) 
   | .error e => .error e
   | .ok (rl, h) => .ok (rl, CIDict.combineLower h (callMeta now localAddr remote))
 
+/-! ### delivery (`SsdpProtocol.datagram_received` after decoding) -/
+
+/-- the callbacks a protocol object is constructed with -/
+inductive Sink | onData | asyncOnData
+deriving DecidableEq, Repr
+
+/-- `datagram_received` hands the decoded (start line, headers) to EVERY configured callback, once each:
+    `async_on_data` (as a task) and `on_data` are two independent `if`s; both get the same mapping -/
+def deliver (sinks : List Sink) (r : Option (Bytes × Hdrs)) : List (Sink × Bytes × Hdrs) :=
+  match r with
+  | some x => sinks.map fun s => (s, x)
+  | .none => []
+
 end Upnp.C01
